@@ -269,6 +269,15 @@ def run_check(pid: str, tier: str, repo_root=None, seed=0):
         lines.append(f"CHECKER-ERROR property={pid} {n}: {why}")
     wall = time.time() - t0
     trusted = sorted({q for q, c in reg.contracts.items() if c.trusted and pid in c.props})
+    from . import leancheck
+    if tier == "thorough":
+        lean_ok, lean_info = leancheck.run(force=True)
+        if not lean_ok:
+            errors.append(("lean", lean_info))
+    lst = leancheck.status()
+    lean_line = (f"Lean lemma base /verif/lean ({', '.join(lst.get('files', []))}, sha256 {lst['sha256'][:12]}): "
+                 + ("compiled without errors or sorry by " + lst.get("lean", "lean") if lst.get("ok") else
+                    ("NOT compiled in this checkout: the rewrite rules are then assumed" if lst.get("ok") is None else "COMPILATION FAILED")))
     ev = {
         "property_id": pid, "tier": tier, "seed": seed, "level": "proof",
         "coverage": {
@@ -276,7 +285,7 @@ def run_check(pid: str, tier: str, repo_root=None, seed=0):
             "checker_cmd": f"python3-vt -m pyvc check {pid} --tier {tier}",
             "trusted_base": [f"z3-solver {driver.solve.z3.get_version_string()} (Python API)", "cvc5 1.0.3 (fallback on unknown)",
                              "pyvc VC generator (/verif/pyvc): encoding of Python semantics, see assumptions",
-                             "Lean 4.33 + Mathlib lemma base /verif/lean/ListLemmas.lean for the list rewrite rules"]
+                             lean_line]
                             + [f"TRUSTED contract (body not verified): {q}" for q in trusted],
             "functions_under_contract": funcs_report,
             "backends": backends, "solver_seconds": round(solver_s, 2), "vacuity_guards": covers,
